@@ -274,14 +274,14 @@ PROPS = {
         "harness": "c19", "driver": "c19", "shards": 4, "harness_shards": 16,
         "classify": c19_class,
         "nontrivial": lambda cls: cls["scenario"] == "broadcast-tags" or cls.get("script_len", 0) >= 1,
-        "rule": "cases = every per-attempt behaviour script of length <= min(max+1,3) (quick; at most one silent attempt) / <= max+2 (thorough) over {refused, accepted-then-closed, closed-while-idle, silent, malformed reply, application error, success} for max_attempts 1..3, blocking and async fleet, each followed by len+2 calls during which the node turns healthy; the fleet.attempt probe switches the scripted node synchronously before every attempt; plus tag-subset broadcasts over up to 3 nodes x 3 tags; distinct = distinct scenario; non-trivial = non-empty script or a tag broadcast Scripted application-error replies carry varying codes (4096, Timeout, ResourceExhausted, InternalError, MethodNotFound); broadcast tag lists sometimes name every tag twice. Behaviour J (success frame with cut-short JSON: a reply, not retried); zero retry delay on even script lengths; slow=<i>: a broadcast node that answers after default_timeout but within its own timeout must still be reported; a result carrying both a value and an error is a violation (driver-level clause).",
+        "rule": "cases = every per-attempt behaviour script of length <= min(max+1,3) (quick; at most one silent attempt) / <= max+2 (thorough) over {refused, accepted-then-closed, closed-while-idle, silent, malformed reply, application error, success} for max_attempts 1..3, blocking and async fleet, each followed by len+2 calls during which the node turns healthy; the fleet.attempt probe switches the scripted node synchronously before every attempt; plus tag-subset broadcasts over up to 3 nodes x 3 tags; distinct = distinct scenario; non-trivial = non-empty script or a tag broadcast Scripted application-error replies carry varying codes (4096, Timeout, ResourceExhausted, InternalError, MethodNotFound); broadcast tag lists sometimes name every tag twice. Behaviour J (success frame with cut-short JSON: a reply, not retried); zero retry delay on even script lengths; slow=<i>: a broadcast node that answers after default_timeout but within its own timeout must still be reported; a result carrying both a value and an error is a violation (driver-level clause). mon=3: the async scripts of length <= 2 are run again while three monitor tasks poll is_connected / connected_nodes from other runtime threads (observers only; same model and oracle). duo=1: two concurrent callers (call_json / call_message) share one node's cached connection; caller A's request is read and never answered, caller B's request, sent half a timeout later, is answered as soon as A has given its first attempt up, well inside B's deadline (ready=1 records that the node wrote the reply in time, otherwise the case is not judged); driver-level clauses: B reports that reply after exactly one attempt and the node sees B's request exactly once, A stays within max_attempts and reports an error, one of two calls afterwards succeeds.",
         "timeout_s": {"quick": 900, "thorough": 3400},
     },
     "C17": {
         "harness": "c17", "driver": "c17", "shards": 2, "harness_shards": 8,
         "classify": c17_class,
         "nontrivial": lambda cls: cls["limit"] != "-",
-        "rule": "cases = for each assumed peer frame limit in {1 KiB, 4 KiB, 64 KiB, 1 MiB, (16 MiB thorough), none} and each of the 7 outbound paths (inline response, off-reader response, handler-pushed notify, registry broadcast, proxy-forwarded response, client request, client notify): frame sizes limit-2..limit+2 plus random sizes up to twice the limit, each on a fresh live WebSocket server / proxy / client with a raw tungstenite peer recording message sizes, the on_error hook counted, and a follow-up exchange for liveness; distinct = distinct case; non-trivial = a limit is configured The endpoint's own inbound thresholds vary (defaults, none, 512 bytes); response paths also carry handler errors around the limit; inline responses are also queued behind a backlog of 40 small notifications (burst=1).",
+        "rule": "cases = for each assumed peer frame limit in {1 KiB, 4 KiB, 64 KiB, 1 MiB, (16 MiB thorough), none} and each of the 7 outbound paths (inline response, off-reader response, handler-pushed notify, registry broadcast, proxy-forwarded response, client request, client notify): frame sizes limit-2..limit+2 plus random sizes up to twice the limit, each on a fresh live WebSocket server / proxy / client with a raw tungstenite peer recording message sizes, the on_error hook counted, and a follow-up exchange for liveness; distinct = distinct case; non-trivial = a limit is configured The endpoint's own inbound thresholds vary (defaults, none, 512 bytes); response paths also carry handler errors around the limit; inline responses are also queued behind a backlog of 40 small notifications (burst=1). Arrangements of the same abstract cases: pipe=1 (handler-pushed notify): one write carries a request with a small reply and the notify-request whose handler pushes the notify under test, server and peer on one thread so the writer finds [small reply, notify] queued together; nothing else is sent until the small reply has arrived (10 s), otherwise alive=0. quit=1 (handler-pushed notify): the connection is served through serve_connection_with_cancel and the handler queues the notify, cancels the ShutdownToken and answers; alive = the earlier small exchange and the handler's own small reply both reached the peer unchanged before the close frame; the scenario is performed 12 times on fresh servers and all rounds must be observed alike. conc=K reps=M (inline response, handler-pushed notify): K connections of one server perform M exchanges each at the same time (first half of the rounds started together), with an error hook that formats the event and appends it to a shared log; all K*M instances must show the same message (or none), and a report for each or for none (rep=mixed is a violation, driver-level clause). park=1 (client request, client notify): the message under test is built from a value whose serialisation parks after the caller took its request id, while a second call is started and held unanswered by the raw server; after the first call was sent or refused a third small call must succeed and the held call must complete (alive).",
         "timeout_s": {"quick": 900, "thorough": 3400},
     },
     "C07": {
@@ -295,7 +295,7 @@ PROPS = {
         "harness": "c10", "driver": "c10", "shards": 8, "harness_shards": 8,
         "classify": c10_class,
         "nontrivial": lambda cls: cls["fault"] != "none",
-        "rule": "cases = small streams (stream length x chunk size incl. empty, single chunk, exact multiple) x both compressions x every puller (pull_to_file, pull_to_beve_file, pull_to_beve_zst_file, pull_to_file_trailer_verified, pull_to_file_async / _verified_async / _trailer_verified_async over AsyncClient and WebSocketClient): no fault, connection cut after the j-th next response for every j (frame-counting TCP proxy), producer io::Error after k bytes for k = 0, end and every chunk boundary +-1, rejecting verifier; trailer lengths around chunk size and stream length (both TrailerHold branches, longer than the stream); pull_value / pull_value_async under every cut and producer failure; child process aborted by the verif-hooks callback at the n-th hit of each of the 6 probe points; destination absent or pre-existing, stale .svspart present or not; distinct = distinct case line; non-trivial = a fault was injected Also fault=trunc on the decompressing file puller: a proxy halves the final chunk of a compressed stream but lets the end-of-stream flag through (judged by the extracted oracle alone: no file, no temp file, no success).",
+        "rule": "cases = small streams (stream length x chunk size incl. empty, single chunk, exact multiple) x both compressions x every puller (pull_to_file, pull_to_beve_file, pull_to_beve_zst_file, pull_to_file_trailer_verified, pull_to_file_async / _verified_async / _trailer_verified_async over AsyncClient and WebSocketClient): no fault, connection cut after the j-th next response for every j (frame-counting TCP proxy), producer io::Error after k bytes for k = 0, end and every chunk boundary +-1, rejecting verifier; trailer lengths around chunk size and stream length (both TrailerHold branches, longer than the stream); pull_value / pull_value_async under every cut and producer failure; child process aborted by the verif-hooks callback at the n-th hit of each of the 6 probe points; destination absent or pre-existing, stale .svspart present or not; distinct = distinct case line; non-trivial = a fault was injected Also fault=trunc on the decompressing file puller: a proxy halves the final chunk of a compressed stream but lets the end-of-stream flag through (judged by the extracted oracle alone: no file, no temp file, no success). pp=1 on every third producer-failure case: the body writer panics after k bytes instead of returning an error (same expectation: the pull fails, nothing is published).",
         "timeout_s": {"quick": 600, "thorough": 3000},
     },
     "C12": {
@@ -316,7 +316,7 @@ PROPS = {
         "harness": "c09", "driver": "c09", "shards": 8, "harness_shards": 8,
         "classify": c09_class,
         "nontrivial": lambda cls: cls["chunks"] != "1" or cls["failure"] != "none",
-        "rule": "real sync-TCP and WebSocket servers, one SVS producer per (kind, element type, chunk_bytes, session_depth, compression); byte producers (reader, writer): payload lengths 0..3n+1 for n in {1,2,3,7,8}, all boundary residues k*n-1, k*n, k*n+1 for n in {64, 4096} (+65536, 1 MiB thorough), depths 0..3 (quick) / 0..8 (thorough), both compressions; every split of tiny payloads into <=3 writes plus random segmentations incl. zero-length and over-long writes; failure injected at 0, 1, L and every chunk boundary +-1, each both as an io::Error returned by the body writer / reader and as a panic of that application code on the producer thread; random sleeps in producer and consumer; BEVE producers (serde value, typed arrays, complex array) around the same boundaries; pullers blocking / async / WebSocket; per case: raw peer open, next until last or error, one more next; second stream with cancel then next; pull_to_vec / pull_value / pull_typed_slice / pull_complex_slice re-encoded; for zstd the harness decompresses the pulled bodies itself; distinct = distinct case line; non-trivial = not a single-chunk clean stream Producer failures alternate between io::ErrorKind::Other and UnexpectedEof. dup=1 cases: two connections pull one stream id with a gated producer; the two replies must be next_handler's two replies (one end marker, one error). Producer failure kinds err/eof/pipe/reset/inval; ae2= (next on a finished stream id while a second stream is open must not return a chunk); 300 003 random bytes through zstd from reader producers with a 3-byte first read.",
+        "rule": "real sync-TCP and WebSocket servers, one SVS producer per (kind, element type, chunk_bytes, session_depth, compression); byte producers (reader, writer): payload lengths 0..3n+1 for n in {1,2,3,7,8}, all boundary residues k*n-1, k*n, k*n+1 for n in {64, 4096} (+65536, 1 MiB thorough), depths 0..3 (quick) / 0..8 (thorough), both compressions; every split of tiny payloads into <=3 writes plus random segmentations incl. zero-length and over-long writes; failure injected at 0, 1, L and every chunk boundary +-1, each both as an io::Error returned by the body writer / reader and as a panic of that application code on the producer thread; random sleeps in producer and consumer; BEVE producers (serde value, typed arrays, complex array) around the same boundaries; pullers blocking / async / WebSocket; per case: raw peer open, next until last or error, one more next; second stream with cancel then next; pull_to_vec / pull_value / pull_typed_slice / pull_complex_slice re-encoded; for zstd the harness decompresses the pulled bodies itself; distinct = distinct case line; non-trivial = not a single-chunk clean stream Producer failures alternate between io::ErrorKind::Other and UnexpectedEof. dup=1 cases: two connections pull one stream id with a gated producer; the two replies must be next_handler's two replies (one end marker, one error). Producer failure kinds err/eof/pipe/reset/inval; ae2= (next on a finished stream id while a second stream is open must not return a chunk); 300 003 random bytes through zstd from reader producers with a 3-byte first read. conc=K cases: K (3..8) consumers, one connection each (blocking / async / WebSocket), barrier-synchronised, pull K different resources of one server over 25..40 rounds (x5 thorough); every result is judged as an ordinary pull of its own resource. park=1 cases: a request-form cancel (TCP: from a second connection; WebSocket: same connection) is acknowledged while an earlier next of that stream is parked on a producer waiting at a gate after g bytes; every next after the acknowledgement takes the place of the after-cancel response of the ordinary case. early= cases: blocking / async / WebSocket pullers whose decoder is done long before the end (wrong element type, a consumer reading a 10-byte prefix, a consumer failing without reading) on streams of 40..400 chunks from a fresh server; afterwards raw next requests for stream ids 1..3 over the same connection take the place of the after-cancel response.",
         "timeout_s": {"quick": 900, "thorough": 3400},
     },
     "C04": {
@@ -335,14 +335,14 @@ PROPS = {
     "C15": {
         "harness": "c15", "driver": "c15", "shards": 4, "harness_shards": 4,
         "classify": c15_class, "nontrivial": lambda cls: cls["handshake"] == "ok",
-        "rule": "cases = {serve_listener, serve_listener_with_graceful_drain, SharedWebSocketServer::accept(+_with_handshake)+serve_connection(+_with_cancel/_with_handshake), hand-rolled 101 + adopt_upgraded} x exit cause {clean close, socket loss, text frame, oversized frame, non-REPE binary frame, inline handler panic, embedder/shutdown token cancel, drain-deadline / task abort} x phase {idle, inline handler blocked, off-reader handler parked polling is_cancelled, outbound queue blocked on a slow peer, inside a blocking connect hook} with random hook configurations (counting / notifying / sleeping / alias-attaching hooks before and after with_peer_registry, handshake-aware hooks, 1..4 disconnect hooks around the registry's), plus a panicking connect hook at each position class and failed handshakes (garbage, wrong path, HTTP without upgrade); 1..4 (quick) / 1..32 (thorough) concurrent connections; per connection: callbacks ordered by a global sequence counter with registry.get/get_by sampled inside, registry after, frames seen by a raw tungstenite peer up to the first response, cancellation seen by the parked handler; plus staggered cases for every serving path: 2..4 connections under one server / shutdown trigger, connection 0 ended alone (clean close / socket loss / inline handler panic / protocol violation) while the others are idle or have a parked off-reader handler; after its disconnect hooks and a 300 ms settle each survivor must show 0 disconnect callbacks, presence in the registry with all its aliases, no cancellation seen, an answered fresh request, an un-cancelled embedder ShutdownToken, and a newly opened connection must be served; then the survivors are ended and judged by the usual clauses; distinct = distinct case; non-trivial = handshake succeeded two=1 cases: two servers built alike share the one peer registry, odd-numbered connections go to the second. early=1: the shared token is cancelled before the connection is accepted (hooks still pair up); shk=1: every alias action also re-points a key shared by all connections at the current peer (a perturbation; not counted among the peer's own keys).",
+        "rule": "cases = {serve_listener, serve_listener_with_graceful_drain, SharedWebSocketServer::accept(+_with_handshake)+serve_connection(+_with_cancel/_with_handshake), hand-rolled 101 + adopt_upgraded} x exit cause {clean close, socket loss, text frame, oversized frame, non-REPE binary frame, inline handler panic, embedder/shutdown token cancel, drain-deadline / task abort} x phase {idle, inline handler blocked, off-reader handler parked polling is_cancelled, outbound queue blocked on a slow peer, inside a blocking connect hook} with random hook configurations (counting / notifying / sleeping / alias-attaching hooks before and after with_peer_registry, handshake-aware hooks, 1..4 disconnect hooks around the registry's), plus a panicking connect hook at each position class and failed handshakes (garbage, wrong path, HTTP without upgrade); 1..4 (quick) / 1..32 (thorough) concurrent connections; per connection: callbacks ordered by a global sequence counter with registry.get/get_by sampled inside, registry after, frames seen by a raw tungstenite peer up to the first response, cancellation seen by the parked handler; plus staggered cases for every serving path: 2..4 connections under one server / shutdown trigger, connection 0 ended alone (clean close / socket loss / inline handler panic / protocol violation) while the others are idle or have a parked off-reader handler; after its disconnect hooks and a 300 ms settle each survivor must show 0 disconnect callbacks, presence in the registry with all its aliases, no cancellation seen, an answered fresh request, an un-cancelled embedder ShutdownToken, and a newly opened connection must be served; then the survivors are ended and judged by the usual clauses; distinct = distinct case; non-trivial = handshake succeeded two=1 cases: two servers built alike share the one peer registry, odd-numbered connections go to the second. early=1: the shared token is cancelled before the connection is accepted (hooks still pair up); shk=1: every alias action also re-points a key shared by all connections at the current peer (a perturbation; not counted among the peer's own keys). oq=1..3 stall=1 (queue phase, token causes): the outbound queue holds 1..3 messages and the flooding handler keeps it full, so the reader is parked handing over the response when the cause is raised; the peer keeps not reading for 4 s; the disconnect hooks must have run within 3 s (driver: note=).",
         "timeout_s": {"quick": 900, "thorough": 3400},
     },
     "C16": {
         "harness": "c16", "driver": "c16", "shards": 2, "harness_shards": 16,
         "classify": c16_class,
         "nontrivial": lambda cls: cls["refused_at_cap"] == "True" or cls["notify_dropped"] == "True" or cls["panic"] == "True",
-        "rule": "cases = scripted histories on one live WebSocket connection with with_offreader_limit(cap), cap 1..3 and unlimited (quick) / 1..16 and unlimited (thorough), 0..2 middlewares: for cap <= 3 every release order x every exit kind {return, error, panic}^cap x every notify pattern (sampled 1/17 in quick), each with 4 x cap parked requests over the json/typed/ctx blocking routes, inline requests and notifies interleaved during saturation, optional refill after each exit, a fresh batch of cap (+1 refused) after all exits and a final inline call; random release orders for larger caps; random walks of 5..120 events; handlers park on per-request channels and keep an atomic gauge; a raw tungstenite peer with hand-built frames waits for the effect of every event; distinct = distinct script; non-trivial = a request was refused or dropped at the cap, or a handler panicked; bursts (pipe=1, oq=1..4): at the cap 2..96 requests leave the client in one write while the server's outbound queue holds 1..4 messages; odd tags panic with a non-string payload; slowrej= (a refusal at the cap that took more than 150 ms; driver-level clause)",
+        "rule": "cases = scripted histories on one live WebSocket connection with with_offreader_limit(cap), cap 1..3 and unlimited (quick) / 1..16 and unlimited (thorough), 0..2 middlewares: for cap <= 3 every release order x every exit kind {return, error, panic}^cap x every notify pattern (sampled 1/17 in quick), each with 4 x cap parked requests over the json/typed/ctx blocking routes, inline requests and notifies interleaved during saturation, optional refill after each exit, a fresh batch of cap (+1 refused) after all exits and a final inline call; random release orders for larger caps; random walks of 5..120 events; handlers park on per-request channels and keep an atomic gauge; a raw tungstenite peer with hand-built frames waits for the effect of every event; distinct = distinct script; non-trivial = a request was refused or dropped at the cap, or a handler panicked; bursts (pipe=1, oq=1..4): at the cap 2..96 requests leave the client in one write while the server's outbound queue holds 1..4 messages; odd tags panic with a non-string payload; slowrej= (a refusal at the cap that took more than 150 ms; driver-level clause) pipe=2 oq=1..2: cap+2..40 blocking requests leave the client in one write into a FREE pool (exactly the first cap are admitted), then all parked handlers are released at the same instant, half of them by panic (replies of such a group are compared as a set, in script order).",
         "timeout_s": {"quick": 900, "thorough": 3400},
     },
     "C08": {
@@ -355,7 +355,7 @@ PROPS = {
     "C06": {
         "harness": "c06", "driver": "c06", "shards": 2, "harness_shards": 16, "classify": c06_class,
         "nontrivial": lambda cls: cls["fault"] != "none" or cls["timeout"] == "True" or cls["cancel"] == "True",
-        "rule": "for each client (blocking, async, WebSocket): faults injected by a raw scripted peer after k of n requests were read — clean close, RST (SO_LINGER 0), bad magic, length mismatch, query_length=2^64-21/body_length=100, body_length=2^62, header truncated at 20 and 47 bytes, body truncated at 5 offsets, truncated then RST; on WebSocket also close frame, text frame, reserved bits, masked server frame, unknown opcode — with n = 0..3 (quick) / 0..16 (thorough) calls in flight, with and without per-call timeouts, then two later calls; the same with the reader parked at fail.after_shutdown (subscriber state, a later call, a cancel, then the drain); all lives of 2 / 3 calls over {answered, expired, expiry forced before removal / after take / before lookup via probes, cancelled, cancel forced after take / before lookup, pending}, sequential and overlapped, with late responses, an unknown-id response and forward_message residue probes, then a fresh call that must still work; the stalled-writer scenario (8 MiB request to a peer with 4 KiB SO_RCVBUF that does not read) on all three clients; 150 / 1500 random valid scenarios; 5 s watchdog per wait; distinct = distinct case line; non-trivial = a fault, timeout or cancel occurred XZ: a 1 ns per-call timeout.",
+        "rule": "for each client (blocking, async, WebSocket): faults injected by a raw scripted peer after k of n requests were read — clean close, RST (SO_LINGER 0), bad magic, length mismatch, query_length=2^64-21/body_length=100, body_length=2^62, header truncated at 20 and 47 bytes, body truncated at 5 offsets, truncated then RST; on WebSocket also close frame, text frame, reserved bits, masked server frame, unknown opcode — with n = 0..3 (quick) / 0..16 (thorough) calls in flight, with and without per-call timeouts, then two later calls; the same with the reader parked at fail.after_shutdown (subscriber state, a later call, a cancel, then the drain); all lives of 2 / 3 calls over {answered, expired, expiry forced before removal / after take / before lookup via probes, cancelled, cancel forced after take / before lookup, pending}, sequential and overlapped, with late responses, an unknown-id response and forward_message residue probes, then a fresh call that must still work; the stalled-writer scenario (8 MiB request to a peer with 4 KiB SO_RCVBUF that does not read) on all three clients; 150 / 1500 random valid scenarios; 5 s watchdog per wait; distinct = distinct case line; non-trivial = a fault, timeout or cancel occurred XZ: a 1 ns per-call timeout. ham=1 (async client): call 0 stays in flight while 12 / 40 further calls expire or are cancelled and two tasks keep the pending-map lock busy (forwards refused as duplicates of call 0, never reaching the wire); every finished call is then probed for residue.",
         "timeout_s": {"quick": 900, "thorough": 3400},
     },
     "C05": {
